@@ -312,6 +312,21 @@ def check_date_time_strings(run):
             if not (1900 <= y <= 2154) or out[1] != y - 1900 or out[2:4] != bytes([6, 15]):
                 run.violation("silently-altered-value/kind10/year-text", {"class": "Date", "text": text, "octets": out,
                                                                          "year_octet_means": "any year" if out[1] == 255 else 1900 + out[1]})
+    # a date / a time is four numbers: fewer or more cannot be sent (the receiving side refuses anything but four octets)
+    for cls, kind in ((Date, 10), (Time, 11)):
+        for tup in ((), (1,), (1, 2), (1, 2, 3), (1, 2, 3, 4), (1, 2, 3, 4, 5), (1, 2, 3, 4, 5, 6)):
+            run.case(("date-time-tuple", cls.__name__, len(tup)), sample=None)
+            try:
+                out = octets(cls(tup))
+            except Exception as err:
+                run.count("refusals")
+                run.seen("refusal_types", type(err).__name__)
+                if len(tup) == 4:
+                    run.violation("refused-representable-value/kind%d/%s" % (kind, type(err).__name__), {"class": cls.__name__, "value": list(tup)})
+                continue
+            run.count("octets_compared")
+            if len(tup) != 4 or out[1:] != bytes(tup):
+                run.violation("encoded-unrepresentable-value/kind%d/wrong-number-of-elements" % kind, {"class": cls.__name__, "value": list(tup), "octets": out})
     for frac, want in ((".5", 50), (".50", 50), (".05", 5), (".5", 50), (".00", 0), (".0", 0), (".99", 99), (".09", 9), (".10", 10), (".1", 10),
                        (".123", None), (".005", None), (".100", None), ("", 0)):
         text = "12:34:56" + frac
